@@ -47,6 +47,10 @@ func c11framings() []c11fr {
 		{"StrictHeader()", channel.StrictHeader(""), 'h', 0},
 		{"Header(text/x)", channel.Header("text/x"), 'h', 0},
 		{"LSP", channel.LSP, 'h', 0},
+		// media types that are not in any canonical spelling (no blank after ';', upper case,
+		// quoted parameter, parameters out of order): a framing must recognise its own output
+		{"StrictHeader(application/json;charset=utf-8)", channel.StrictHeader("application/json;charset=utf-8"), 'h', 0},
+		{"Header(Text/Plain; Charset=\"UTF-8\"; b=1;a=2)", channel.Header(`Text/Plain; Charset="UTF-8"; b=1;a=2`), 'h', 0},
 		{"RawJSON", channel.RawJSON, 'j', 0},
 	}
 }
